@@ -18,6 +18,8 @@ def split_layers(view):
 
 
 def judge(lines, lh):
+    if lh and PC.env_dependent(lh[0]):
+        return []
     """lines: parse E x.. ; ser ; view ; rt E     lh: P.. ; S.. ; P'.. ; Q.. ; S2.."""
     bad = []
     if not lh or not lh[0].startswith('P '):
